@@ -18,6 +18,7 @@ import (
 	"math/big"
 	"os"
 	"path/filepath"
+	"runtime/pprof"
 	"sort"
 	"strings"
 	"sync"
@@ -611,6 +612,11 @@ func TestCheck(t *testing.T) {
 		return
 	}
 	secs := sections(r)
+	if pf := os.Getenv("VERIF_C13_PROF"); pf != "" { // development aid
+		f, _ := os.Create(pf)
+		_ = pprof.StartCPUProfile(f)
+		defer pprof.StopCPUProfile()
+	}
 	type job struct{ s, j int }
 	var jobs []job
 	for si, s := range secs {
@@ -634,6 +640,7 @@ func TestCheck(t *testing.T) {
 		st.noteSection(s.name, n)
 	})
 	writeRecordedSample()
+	pprof.StopCPUProfile()
 	var undetTotal int64
 	undet := map[string]int64{}
 	for k, v := range st.undet {
